@@ -157,7 +157,26 @@ def snapshot(m):
     q('cmeta', lambda: sorted([c, v.name] for c, v in m._cmeta_id_to_variable.items()))
     q('printed', lambda: [Printer().doprint(e.rhs) for e in m.equations[:5]])
     q('unit_check', lambda: [str(m.units.evaluate_units(e.rhs)) for e in m.equations[:5]])
+    snap.update(store_probe(m.units))
     return snap
+
+
+def store_probe(us):
+    """what a unit store answers without being changed: its known names, and conversions across dimensions that only a
+    conversion rule (registered by somebody) could make possible"""
+    out = {}
+
+    def q(name, fn):
+        try:
+            out[name] = fn()
+        except Exception as e:
+            out[name] = 'raises ' + vlib.err_class(e)
+    q('known_units', lambda: sorted(us._known_units))
+    amp, metre, volt = us.get_unit('ampere'), us.get_unit('metre'), us.get_unit('volt')
+    q('rule_probe_1', lambda: str(us.get_conversion_factor(amp, amp / metre ** 2)))
+    q('rule_probe_2', lambda: str(us.convert(us.Quantity(3.0, amp * 1e-6), amp / metre ** 2).magnitude))
+    q('rule_probe_3', lambda: str(us.get_conversion_factor(volt, amp)))
+    return out
 
 
 def model_ops(rng, n):
@@ -170,10 +189,11 @@ def gen_model_case(seed, big):
     files = [rng.choice(SMALL_MODELS + (BIG_MODELS if big else [])) for _ in range(rng.randint(2, 3))]
     if rng.random() < 0.4:
         files[1] = files[0]       # structurally identical equations in two models (cached singularity analysis)
-    return {'seed': seed, 'files': files, 'ops': model_ops(rng, rng.randint(6, 12))}
+    # half of the cases hand every model one caller-owned unit store (models then share its registry, not its names)
+    return {'seed': seed, 'files': files, 'ops': model_ops(rng, rng.randint(6, 12)), 'caller_store': rng.random() < 0.5}
 
 
-def apply_model_op(models, op, rng_seed):
+def apply_model_op(models, op, rng_seed, caller=None):
     """performs one operation on models[op[1]]; returns a short description (exceptions are fine: they must not leak either)"""
     import sympy
     import cellmlmanip
@@ -185,7 +205,7 @@ def apply_model_op(models, op, rng_seed):
     rng = random.Random(rng_seed * 1000 + salt)
     try:
         if kind == 'load':
-            models[idx] = cellmlmanip.load_model(os.path.join(CELLML, rng.choice(SMALL_MODELS)))
+            models[idx] = cellmlmanip.load_model(os.path.join(CELLML, rng.choice(SMALL_MODELS)), unit_store=caller)
         elif kind == 'convert':
             vs = [v for v in m.variables()]
             v = rng.choice(vs)
@@ -223,7 +243,10 @@ def apply_model_op(models, op, rng_seed):
                 m.remove_variable(rng.choice(cands))
         elif kind == 'rule':
             us = m.units
-            if not us.is_defined('rule_a'):
+            # conversion rules live in the pint registry and are keyed by dimensionality: with a deliberately shared
+            # registry they are shared by design (and rules are not among the operations the property lists), so they are
+            # only registered when every model has its own registry
+            if caller is None and not us.is_defined('rule_a'):
                 us.add_unit('rule_a', 'ampere * 1e-6')
                 us.add_unit('rule_b', 'ampere / metre ** 2')
                 k = us.Quantity(2.0, us.get_unit('metre') ** 2)
@@ -240,15 +263,39 @@ def model_work(case):
     import cellmlmanip
     bad = []
     hist = []
+    caller = None
     try:
-        models = [cellmlmanip.load_model(os.path.join(CELLML, f)) for f in case['files']]
+        if case.get('caller_store'):
+            from cellmlmanip.units import UnitStore
+            caller = UnitStore()
+            caller.add_unit('caller_u', 'second * 3')
+            caller.add_unit('mV', 'volt * 1e-6')      # a name the documents also define, with another meaning
+            caller_snap = store_probe(caller)
+        models = []
+        for f in case['files']:
+            models.append(cellmlmanip.load_model(os.path.join(CELLML, f), unit_store=caller))
+            if caller is not None and store_probe(caller) != caller_snap:
+                now = store_probe(caller)
+                diff = [k for k in now if now[k] != caller_snap.get(k)]
+                bad.append(('loading %s with unit_store=S changed the caller\'s store S: %s (was %r, now %r)'
+                            % (f, ', '.join(diff), str(caller_snap[diff[0]])[:200], str(now[diff[0]])[:200]), {'op_index': -1}))
+                caller_snap = now
     except Exception as e:
-        return [('harness: cannot load %r: %r' % (case['files'], e), {})], hist
+        return [('loading the bundled documents %r %s raises %r (each of them loads on its own)'
+                 % (case['files'], 'into one caller-owned unit store (unit_store=S)' if case.get('caller_store') else '', e), {})], hist
     snaps = [snapshot(m) for m in models]
     for j, op in enumerate(case['ops']):
         idx = op[1] % len(models)
-        res = apply_model_op(models, op, case['seed'])
+        res = apply_model_op(models, op, case['seed'], caller)
         hist.append(res)
+        if caller is not None:
+            now = store_probe(caller)
+            if now != caller_snap:
+                diff = [k for k in now if now[k] != caller_snap.get(k)]
+                bad.append(('operation %r on model %d changed the caller\'s unit store S (the models were loaded with '
+                            'unit_store=S): %s (was %r, now %r)' % (res, idx, ', '.join(diff), str(caller_snap[diff[0]])[:200],
+                                                                    str(now[diff[0]])[:200]), {'op_index': j, 'changed': diff}))
+                caller_snap = now
         for t in range(len(models)):
             if t == idx:
                 snaps[t] = snapshot(models[t])
